@@ -500,7 +500,10 @@ func RunCase(c Case) (res stats.Result) {
 				for _, i := range inflight {
 					st[i].discarded = true
 				}
-				inflight = nil
+				for _, i := range awaitCopy { // taken but not forwarded yet: gone with the flush as well
+					st[i].status = 2
+				}
+				inflight, awaitCopy = nil, nil
 				flushing = true
 			} else if ctlQ[0].Restart {
 				for _, i := range inflight {
